@@ -1029,6 +1029,7 @@ def emit_reply_fixture(fx):
         out.append(reply_method_src(r))
     out.append("}")
     out.append("")
+    out.append("//@NATIVE-CONSTS@")
     out.append("#[cfg(kani)]")
     out.append("pub mod proofs {")
     out.append("    use super::*;")
@@ -1074,10 +1075,10 @@ def emit_reply_fixture(fx):
         for b in table[i + 1:]:
             conds.append("sv::%s_REPLY_ID != sv::%s_REPLY_ID" % (a["name"].upper(), b["name"].upper()))
     name = "%s.T.reply_ids_distinct" % mod
-    T_OBLIGATIONS.append(dict(name=name, feature=fx["feature"], props=["C08"] + px, fixture=mod, tier=tier))
-    out.append("        // T-BEGIN %s" % name)
-    out.append("        const _: () = assert!(%s);" % (" && ".join(conds) or "true"))
-    out.append("        // T-END %s" % name)
+    # const-evaluated obligation: placed at module level OUTSIDE the cfg(kani) module and decided by a native
+    # `cargo check` (kani-compiler does not evaluate unused constants: found while testing seed C17c_2)
+    T_OBLIGATIONS.append(dict(name=name, feature=fx["feature"], props=["C08"] + px, fixture=mod, tier=tier, native=True))
+    native_consts = ["// T-BEGIN %s" % name, "const _: () = assert!(%s);" % (" && ".join(conds) or "true"), "// T-END %s" % name]
     name = "%s.T.accepted" % mod
     T_OBLIGATIONS.append(dict(name=name, feature=fx["feature"], props=["C14"] if fx.get("perm_of") or fx.get("order_twin") else ["C07"], fixture=mod, tier=tier))
     out.append("        // T-BEGIN %s  (the fixture as a whole is accepted by the macros)" % name)
@@ -1095,7 +1096,7 @@ def emit_reply_fixture(fx):
         out.append(reply_harness(dict(fx, ep=True), e, "err" if e["err"] or e["always"] else "ok", "c06_%s_ep_reply" % mod, ["C06"], tier).replace(
             "sv::dispatch_reply(deps, env(h), Reply {", "entry_points::reply(deps, env(h), Reply {").replace(", %s::new()));" % c, "));"))
     out.append("}")
-    return "\n".join(out)
+    return "\n".join(out).replace("//@NATIVE-CONSTS@", "\n".join(native_consts))
 
 
 def fx_reply(perm=False):
